@@ -46,7 +46,7 @@ REQUIRED = dict(monitors=['restricted-equals-full', 'restricted-grid-is-subset',
                          'emission:same-size-window', 'emission:star-written-between-evaluations',
                          'request:work-array-refilled-in-place', 'request:foreign-ending-on-an-end-point',
                          'table:empty-far-wing:exp', 'table:empty-far-wing:linear', 'request:own-sub-range-clear-of-the-empty-wing',
-                         'request:foreign-a-hair-off-the-native-points'])
+                         'request:foreign-a-hair-off-the-native-points', 'sequence:own-grid-then-same-ends-and-count'])
 CUT = math.exp(-10.0)
 
 
@@ -506,6 +506,10 @@ def wl_opacity(ctx, rng):
              'foreign-a-hair-off-the-native-points']
     kinds += [extra[k] for k in rng.integers(0, len(extra), int(rng.integers(1, 5)))]
     kinds = [kinds[k] for k in rng.permutation(len(kinds))]
+    if ctx.case['index'] % 5 == 0:
+        # a deliberate order: the table's own grid first, then another grid with the same ends and the same count
+        kinds = ['own-full', 'foreign-same-ends-and-count'] + kinds
+        ctx.observe('sequence:own-grid-then-same-ends-and-count')
     done = []
     led = own.Ledger(ctx, 'opacity-requests')
     work = {}                   # the caller's work arrays, one per length: refilled in place for the next request
